@@ -173,7 +173,9 @@ func runC13One(l *Layout, muts []Mut, opts ReadOpts, st *Stats) (oc c13Outcome, 
 	oc.accepted = true
 	// side B: verifying scan
 	scanDel := GenDelivery(dr)
-	res := scanWith("v2br", data, Pick(dr, readerProfiles), scanDel, opts)
+	scanOpts := opts
+	scanOpts.Trusted = false // the scan the statement compares with is the hash-verifying one, whatever the Reader was given
+	res := scanWith("v2br", data, Pick(dr, readerProfiles), scanDel, scanOpts)
 	if res.panicV != nil {
 		return oc, viol("medium/panic/v2br@"+loc, "BlockReader panicked: %v", res.panicV)
 	}
@@ -215,7 +217,7 @@ func runC13One(l *Layout, muts []Mut, opts ReadOpts, st *Stats) (oc c13Outcome, 
 		return oc, nil
 	}
 	// both succeeded: statistics must be those of the scan
-	br, err := carv2.NewBlockReader(bytesReader(data), opts.Options()...)
+	br, err := carv2.NewBlockReader(bytesReader(data), scanOpts.Options()...)
 	if err != nil {
 		return oc, viol("medium/accept-mismatch/blockreader-flaky@"+loc, "second NewBlockReader failed: %v", err)
 	}
@@ -298,7 +300,8 @@ func c13Mutations(l *Layout, r *Rng, thorough bool) [][]Mut {
 
 func c13OptVariants(l *Layout, r *Rng) []ReadOpts {
 	base := ReadOpts{ZeroEOF: l.Spec.NullPad > 0}
-	out := []ReadOpts{base, {ZeroEOF: !base.ZeroEOF}}
+	// (WithTrustedCAR is an option of the sequential readers; full-validation inspection hashes regardless)
+	out := []ReadOpts{base, {ZeroEOF: !base.ZeroEOF}, {ZeroEOF: base.ZeroEOF, Trusted: true}}
 	// section-size limits placed around the real section and block sizes
 	seen := map[uint64]bool{}
 	for _, s := range l.Payload.Sections {
